@@ -49,6 +49,18 @@ class _Canon(ast.NodeTransformer):
                 node.args.append(kws.pop(sig[i]).value)
                 i += 1
             node.keywords = [k for k in node.keywords if k.arg in kws]
+        # f(**{'a': x, 'b': y}) -> f(a=x, b=y)
+        if any(k.arg is None and isinstance(k.value, ast.Dict) and k.value.keys and
+               all(isinstance(kk, ast.Constant) and isinstance(kk.value, str) and kk.value.isidentifier() for kk in k.value.keys)
+               for k in node.keywords):
+            kws = []
+            for k in node.keywords:
+                if k.arg is None and isinstance(k.value, ast.Dict) and k.value.keys and \
+                        all(isinstance(kk, ast.Constant) and isinstance(kk.value, str) and kk.value.isidentifier() for kk in k.value.keys):
+                    kws.extend(ast.keyword(arg=kk.value, value=vv) for kk, vv in zip(k.value.keys, k.value.values))
+                else:
+                    kws.append(k)
+            node.keywords = kws
         # dict(<generator of 2-tuples>) -> {k: v for ...}
         if isinstance(node.func, ast.Name) and node.func.id == 'dict' and len(node.args) == 1 and not node.keywords \
                 and isinstance(node.args[0], ast.GeneratorExp):
